@@ -168,6 +168,10 @@ finding("C13-parser-resolver-spans-are-byte-offsets", "C13", ["C12"],
  "a syntactic / resolution / type / SQL-generation error (not a lexer error) whose position is preceded by multi-byte text; the ASCII twin of the source (same length in characters) passes every check",
  "Token spans are byte offsets (chumsky over &str); only lexer errors are converted to character offsets (convert_lexer_error). ErrorMessages::composed feeds parser and resolver spans to ariadne, which counts characters: after `# é` the reported column is one too far (`Unknown name zzz_col` at 3:144 instead of 3:143), `span` (documented as a character offset) is the byte offset, and when the byte offset exceeds the character count `assert!(e.location.is_some())` panics (error_message.rs:153). Not repaired: it needs a decision on the unit of the public `span` field across lexer, parser and resolver errors.",
  None)
+finding("C13-interpolation-span-after-escapes", "C13", [],
+ "an error located inside the placeholder of an f-string / s-string that has escape sequences *before* the placeholder; reported as `the span of an Unknown name error does not cover the name`",
+ "Spans inside interpolated strings are computed on the string's processed text (escapes already replaced) and rebased by a constant: `derive {zz = f\"\\t\\t{zzz_col}\"}` reports `Unknown name zzz_col` with a span two characters too far left (it covers `t{zzz_c`): one character per byte an earlier escape sequence removed. Escapes after the placeholder do not matter.",
+ None)
 finding("C13-span-in-foreign-source", "C13", [],
  "an error whose span carries a source id that is not a file of the compiled source tree (internal compiler error #4317 raised for `take 3 4` after a non-boolean filter etc.: span 0:2411-2424 points into the embedded std library)",
  "`... | filter 1 + 2 | take 3 4` returns `internal compiler error; tracked at https://github.com/PRQL/prql/issues/4317` with span source_id 0 (std.prql), start 2411: the span does not lie in the named source, and location/display are absent.",
